@@ -36,7 +36,7 @@ def thin(triangle: Triangle, num_samples: int, seed: int = None) -> Triangle:
 
 def _thin_cell(cell: Cell, ndxs: np.ndarray) -> Cell:
     new_values = {
-        k: v[ndxs] if isinstance(v, np.ndarray) and len(v) > 1 else v
+        k: v[ndxs] if isinstance(v, np.ndarray) and v.ndim > 0 and len(v) > 1 else v
         for k, v in cell.values.items()
     }
     return cell.replace(values=new_values)
